@@ -24,7 +24,9 @@ RULE = ('scripted models (1-4 variables, 1-5 periods) run as a sequence of 1-4 c
         'columns it leaves after every pass (recorded on the untraced twin) become the action script of the Coq model for that run. '
         'Non-trivial = some call ran >= 2 evaluation passes or ended in an exception; distinct by hash of the whole case.')
 TRUSTED = ['scripted-model subclasses harness/scripted.py + harness/scripted_tracer.py (the same scripts are the Coq oracles; the Recorder layer '
-           'between the mixin and the scripted hooks gives the oracle its own record of the store after every pass)']
+           'between the mixin and the scripted hooks gives the oracle its own record of the store after every pass)',
+           'Solver/Solver.v and Solver/SolveAll.v (models of BaseModel.solve_t and SolverMixin.solve / iter_periods / solve_period owned by the C02-C06 '
+           'checks) are the untraced side of the theorems; K_tracer runs them too, against the untraced twin of every call']
 ASSUMPTIONS = ['the user\'s _evaluate / solve_t_before / solve_t_after modify variable values only: they do not add, remove or resize series, '
                'do not touch the `trace` entry and do not look at the trace= / reset= keywords they are handed (shape of the model\'s inner oracles)',
                'names in trace= / TRACE_VARIABLES are model variables or unknown strings (not `status`, `iterations` or the trace entry itself)',
@@ -420,7 +422,8 @@ def oracle(case, obs):
         # or not the twin happens to raise a ValueError of its own (min_iter > max_iter).
         wide = [p for p in (periods or []) if on and not reset and prev['traces'][p]['values']
                 and len(prev['traces'][p]['values'][0]) != len(names)]
-        if wide and s['out'][:2] == ['raise', 'ValueError'] and (not same or s['traces'] != prev['traces']):
+        if wide and s['out'][:2] == ['raise', 'ValueError'] and (
+                not same or any(len(s['traces'][p]['index']) != len(s['traces'][p]['values']) for p in wide)):
             p0 = wide[0]
             bad(KNOWN_SIG, 'call %d: %s(..., trace=%r) raises ValueError (np.hstack in Trace.append) because period %d was traced before with '
                 '%d name(s); the same call without trace= gives %s' % (ci, ent, py_trace(a), p0, len(prev['traces'][p0]['values'][0]), tw['out']))
@@ -479,6 +482,10 @@ def _check_shapes(case, call, ci, s, prev, names, periods, bad):
             attempted = [(p, 'unsolved' if out[1] == 'NonConvergenceError' else 'error')]
     for p, how in attempted:
         before, after = prev['traces'][p], s['traces'][p]
+        if before['values'] and before['names'] != names and after['names'] == names:
+            # the period was traced before under OTHER names and the call started a fresh Trace for the names traced now (what
+            # a repair of finding #16 / the stale-names finding has to do: one array cannot hold both): judged as a first trace
+            before = copy.deepcopy(EMPTY)
         nb = len(before['index'])
         if after['index'][:nb] != before['index'] or after['values'][:len(before['values'])] != before['values']:
             bad('C17|TracerMixin|earlier-snapshots-lost', 'call %d period %d: reset=False but earlier snapshots changed' % (ci, p))
